@@ -23,6 +23,7 @@ func init() {
 			"O5 batch announcer (R-FLOW/R-POST): ProvideMany receives the batch slice itself; the single-provide fallback calls Provide(keys[i]) in a loop over all of keys that is left early only on error; " +
 			"O6 (R-POST): the goroutine feeding the prioritized output channel closes it before every return; " +
 			"O4 prioritized provider (R-DOM/R-POST/R-CMP): every send on the output channel is guarded by visited.Has(c)==false for the same c; every received key is either skipped on the Has edge or reaches the send; when markVisited holds every successful send is coupled with visited.Visit/Add(c); the markVisited argument is true for every non-last stream index; a stream error does not leave the loop over streams. " +
+			"O2 also (R-POST): once the key slice is built, the next channel read or a return is reached without the announcer only where len(keys)==0; O4 also (R-POST): on visited.Has==true the handler does not return before the next receive. " +
 			"NOT decided: 'at least once' when ProvideMany/Provide fails (the failed batch is dropped by design of the loop), liveness of the key provider itself (the channel is assumed to be closed eventually), the provide queue path (provideWorker hands CIDs to workers through function values), contents of the channel.",
 		Assume: []string{"the key provider eventually closes its channel and every called routine returns",
 			"verifcid.ValidateCid implements the allowlist", "doProvideMany is only called from package provider (unexported)"},
@@ -244,6 +245,26 @@ func runC44(c *an.Ctx) {
 			}
 			c.Check(kb.badElem == "", "O2", "R-FLOW", name, "keys=Hash(validated)", pc.Pos(), "every announced key is c.Hash() of a CID validated on the nil edge",
 				"an element of the announced key slice is "+kb.badElem+": not the multihash of a validated CID")
+			// a non-empty batch is announced: from the point where the key slice
+			// is final, the next read of the key channel or a return is reached
+			// without the announcement only where len(keys) == 0
+			if def, ok := keys.(ssa.Instruction); ok && def.Parent() == fn {
+				skip := c22LenEdges(fn, []ssa.Value{keys}, false)
+				blockedA := map[ssa.Instruction]bool{pc: true}
+				dropped := ""
+				for _, ev := range cx.recvEventsMay(fn) {
+					if an.Reaches(fn, def, ev, skip, blockedA) {
+						dropped = "the next read of the key channel"
+					}
+				}
+				for _, r := range an.Returns(fn) {
+					if an.Reaches(fn, def, r, skip, blockedA) {
+						dropped = "a return"
+					}
+				}
+				c.Check(dropped == "", "O2", "R-POST", name, "non-empty-batch=>announced", pc.Pos(),
+					"once built, a batch is skipped only when it is empty", "after the key slice is built "+dropped+" can be reached without "+g.Name()+" although the slice may be non-empty (only len(keys)==0 may skip the announcement): validated keys are dropped without being announced")
+			}
 			mk := map[ssa.Instruction]bool{}
 			for _, f := range kb.fresh {
 				mk[f] = true
@@ -355,6 +376,23 @@ func runC44(c *an.Ctx) {
 				esc := an.Reaches(fn, r, r, hasTrue, map[ssa.Instruction]bool{s: true})
 				c.Check(!esc, "O4", "R-POST", fname, "received-key=>skipped-or-emitted", r.Pos(),
 					"between two receives the key is either a visited duplicate or is offered to the output", "a received key can be dropped (next receive reached without the send and without visited.Has being true): not every key of every stream is emitted")
+			}
+			// a visited duplicate is skipped, it does not end the stream
+			if len(hasTrue) > 0 {
+				blockedR := map[ssa.Instruction]bool{}
+				for _, r := range recvSel {
+					blockedR[r] = true
+				}
+				ends := false
+				for e := range hasTrue {
+					for _, r := range an.Returns(fn) {
+						if c22ReachFromBlock(e.From.Succs[e.Succ], r, blockedR) {
+							ends = true
+						}
+					}
+				}
+				c.Check(!ends, "O4", "R-POST", fname, "visited-duplicate=>next-key", s.Pos(),
+					"after a visited duplicate the next key of the stream is read", "when visited.Has(key) is true the handler can return without reading the stream any further: the remaining keys of the stream are never emitted")
 			}
 			// marking coupled with the send when markVisited
 			var mark []ssa.Value
